@@ -7,6 +7,8 @@ CONSTANTS
   NStmt = 2
   InjectFaults = TRUE
   AllowDeviations = FALSE
+  Intro <- IntroA1
+  Grp <- GrpA1
   EmitHistories = TRUE
 CONSTRAINT GConstraint
 INVARIANT Converged
